@@ -111,7 +111,7 @@ def histories(draw):
                         "sync": draw(st.sampled_from(["individual", "individual", "all"]))})
         elif o in ("sync_all", "view"):
             ops.append({"op": o})
-    return {"meta": meta, "ops": ops}
+    return {"meta": meta, "ops": ops, "thread_safe": draw(st.sampled_from([True, True, False]))}
 
 
 # ---------------------------------------------------------------- normalisation (what a JSON round trip must return)
@@ -235,7 +235,10 @@ def check_history(case):
     try:
         db = os.path.join(prob.working_dir, "c10.sqlite")
         with guard("store"):
-            prob.data_store = SqliteDataStore(prob, database_name=db)
+            # default = one connection per call (thread-safe mode); the single cached connection mode as well
+            prob.data_store = SqliteDataStore(prob, database_name=db, thread_safe=case.get("thread_safe", True))
+        if not case.get("thread_safe", True):
+            classes.add("single-connection-mode")
         objs = []
         model = {}
         for k, op in enumerate(case["ops"]):
